@@ -37,6 +37,8 @@ TEMPLATES = {
     "parse": ("@parse \"@db 7\"\n", "07"),
     "segment": ("@segment \"ADDR\"\n@org 5\nsa: @ds 2\n@segment \"CODE\"\n@org 0\n@db sa\n", "05"),
     "if": ("@if 1\n@db 1\n@endif\n@if 0\n@db 2\n@endif\n", "01"),
+    # operators written directly against names and numbers (a colon glued to a label is still the ternary's colon)
+    "tight": ("@defn q1, 5\nx1: @db 1 ? q1: 7, 0 ? 1 :x1, 1?q1:2, 1?<q1:9\n", "05000505"),
     "entropy": ("@macro me, 0\n@label { \"e\" @entropy }:\n@db 1\n@endmacro\nme\nme\n", "0101"),
 }
 EXTRA_FILES = {"/w/inc.inc": "@db $aa\n", "/w/blob.bin": b"\x10\x11"}
@@ -69,7 +71,10 @@ def instr_program(rng, arch):
             lines.append("@db %d, $%x, %%%s, 'q', \"s\\n\"" % (rng.randrange(256), rng.randrange(256), bin(rng.randrange(256))[2:]))
         elif r < 0.36 and n:
             lines.append("@dw lab%d" % rng.randrange(1, n + 1))
-        elif r < 0.4:
+        elif r < 0.39 and n:
+            k = rng.randrange(1, n + 1)
+            lines.append(rng.choice(["@dw 1 ? lab%d: 7", "@dw 0 ? 7 :lab%d", "@dw 1?lab%d:2", "@db 1 ? <lab%d: 0"]) % k)
+        elif r < 0.43:
             n += 1
             lines.append("lab%d:" % n)
             lines.append(".loc%d:" % n + " " + rng.choice(forms)[0])
@@ -82,16 +87,24 @@ def variants(rng, text, kw, how_many):
     toks = respell.tokenize(text)
     out = []
     macros = set(re.findall(r"@macro\s+(\w+)", text))
+    # in the order they compose: case and colon first, then continuations, then spacing / comments, line ends last (so
+    # that a CR also goes in front of the line break that follows a continuation backslash)
     singles = [
         ("upper", lambda t: respell.respell_case(t, kw, True)),
+        ("colon", lambda t: respell.toggle_label_colon(t, rng, kw, macros)),
+        ("continuation", lambda t: respell.add_continuations(t, rng)),
         ("spacing", lambda t: respell.add_spacing(t, rng)),
         ("comments", lambda t: respell.add_blank_and_comments(t, rng)),
         ("crlf", lambda t: respell.crlf(t)),
-        ("colon", lambda t: respell.toggle_label_colon(t, rng, kw, macros)),
-        ("continuation", lambda t: respell.add_continuations(t, rng)),
     ]
     for tag, f in singles:
         out.append((tag, respell.untokenize(f(toks))))
+    # continuation + CR LF always (two clauses that meet in one place), then random subsets
+    t = toks
+    for tag, f in singles:
+        if tag in ("continuation", "crlf"):
+            t = f(t)
+    out.append(("continuation+crlf", respell.untokenize(t)))
     for _ in range(how_many):
         chosen = [s for s in singles if rng.random() < 0.5] or [rng.choice(singles)]
         # case and colon first, then continuations, then spacing / comments / line ends
